@@ -1,5 +1,5 @@
 """C09 — all parse entry points agree: StrictParse, ParseAny and Must* match Parse."""
-import re
+import os, re, subprocess
 from . import common as C
 
 MANIFEST = dict(
@@ -8,8 +8,16 @@ MANIFEST = dict(
    note="Trusted: Lean kernel; axioms propext/Classical.choice/Quot.sound at most; harness + comparer. Only the primitive engine path is modelled; the Faithful hypotheses of c09_history are tied to the code by the frame observation (a change there without a concrete disagreement is reported as a broken tie); ParseComplexStrict and the type-local StrictParse implementations are judged by the statement directly (entry points must agree) and their many deviations are listed as known findings by (type, Parse outcome class, StrictParse outcome class). Pointer identity of results is C15's business and not compared here.",
    design="DESIGN.md §5 C09")
 
-MODULES = ["Gozod.Proofs.C09"]
-THEOREMS = ["Gozod.C09." + t for t in ["checked_ptr_irrelevant", "checked_no_checks", "c09_strict_eq_parse", "c09_parseAny_eq_parse",
+MODULES = ["Gozod.Proofs.C09", "Gozod.Proofs.C09Complex", "Gozod.Proofs.C09Table"]
+THEOREMS = ["Gozod.C09." + t for t in [
+    # complex engine path, legacy witnesses, wrappers (Proofs/C09Complex.lean)
+    "c09_complex_strict_eq_parse", "sliceConv_ok", "c09_slice_strict_eq_parse", "adapt_preserves", "c09_complex_same_verdict_value",
+    "adapt_shape", "adapt_idem", "handleNilComplex_handled", "legacy_fast_path_witness", "legacy_nil_path_witness",
+    "legacy_validation_only_witness", "legacy_fallback_witness", "legacy_not_agreeing",
+    "c09_parseAny_eq_parse_all", "c09_must_returns_or_panics", "must_returned_iff", "must_panicked_iff", "must_congr",
+    # the entry-point table regenerated from types/*.go (Proofs/C09Table.lean)
+    "c09_table_as_expected", "c09_table_wrappers", "c09_table_covered", "c09_table_nonempty",
+    "checked_ptr_irrelevant", "checked_no_checks", "c09_strict_eq_parse", "c09_parseAny_eq_parse",
     "strictParseWith_sound", "strictFast_checks_empty", "run_ok_of_read_only", "pinned_faithful", "runEP_eq_parse", "step_spec",
     "c09_history", "c09_history_pinned", "c09_history_entrypoints_agree", "c09_parses_do_not_matter",
     "memoising_stale_witness", "memoising_not_faithful"]]
@@ -55,11 +63,51 @@ def key(op, impl, M, S):
 def describe(op):
     return "harness/cmd/c09: 'str' = String()/StringPtr() + checks (message m<pos>) + modifier suffix; 'gen <type> <modifiers applied by reflection>'; input after '|'"
 
-def run(res):
-    ok, detail = C.prove(res, MODULES, THEOREMS)
+GEN_EP = os.path.join(C.LEAN, "Gozod", "Gen", "EntryPoints.lean")
+
+def translate(res):
+    """Regenerate Gen/EntryPoints.lean (go/ast over types/*.go of REPO); rewritten only when the content changes."""
+    ok, out = C.build_harness("C09")
     if not ok:
+        return "harness does not build against the current tree:\n" + out[-3000:]
+    before = open(GEN_EP).read() if os.path.exists(GEN_EP) else ""
+    rc, out = C.run([C.harness_bin("C09"), "-out", C.BUILD, "-gen-entrypoints", GEN_EP, "-repo", C.REPO], env=C.goenv(), timeout=600)
+    if rc != 0:
+        return "translator failed (rc=%d): %s" % (rc, out[-2000:])
+    if open(GEN_EP).read() != before:
+        res.notes.append("Gen/EntryPoints.lean changed and was rewritten")
+    res.coverage["entrypoint_rows"] = open(GEN_EP).read().count("⟨")
+    return ""
+
+def table_offenders():
+    """Which rows of the regenerated entry-point table the expectation does not cover (asks the driver)."""
+    try:
+        p = subprocess.run([C.driver_bin("C09")], input="c09 table\n", capture_output=True, text=True, timeout=120)
+        return p.stdout.strip().split("\t")[0]
+    except Exception as e:
+        return "(driver unavailable: %s)" % e
+
+def run(res):
+    with C.Lock("c09-gen"):
+        return _run(res)
+
+def _run(res):
+    err = translate(res)
+    if err:
+        C.tie_broken(res, "translator C09/EntryPoints", err)
+        return res.finish()
+    ok, detail = C.prove(res, MODULES, THEOREMS)
+    aimed = []
+    if not ok:
+        if "C09Table" in detail or "c09_table" in detail:
+            C.lake_build(["driver_c09"])
+            off = table_offenders()
+            aimed = sorted(set(re.findall(r"\bZod[A-Za-z0-9]+", off)))
+            detail = ("the entry-point table regenerated from types/*.go differs from the expectation in Model/EntryPoints.lean:\n  "
+                      + off.replace(" ; ", "\n  ") + "\n(the run below is aimed at: %s)\n\n" % ", ".join(aimed) + detail)
+            res.notes.append("entry-point table offenders: " + off)
         C.tie_broken(res, "proof Gozod.Proofs.C09", detail)
-    data, err = C.correspond(res, "C09", feed_impl=True)
+    data, err = C.correspond(res, "C09", extra_args=(["-aim", ",".join(aimed)] if aimed else []), feed_impl=True)
     if data is None:
         C.tie_broken(res, "correspondence C09/ParsePrimitiveStrict", err)
         return res.finish()
